@@ -176,6 +176,27 @@ def _job_spelled(vec):
     return problems, signature
 
 
+def wide_integers(report):
+    """
+    Integer ranges of 32 to 38 digits (beyond what the symbolic numbers of Sql.tla reach, within what Oracle and Transact-SQL
+    can declare): the column has to hold both limits. The oracle is holds(), i.e. the declared precision against the limits.
+    """
+    import cutplace
+    from cutplace import sql
+    for digits in (32, 35, 38):
+        for rule, lo, hi in (("0...%s" % ("9" * digits), 0, 10 ** digits - 1), ("-%s...5" % ("1" + "0" * (digits - 1)), -(10 ** (digits - 1)), 5)):
+            for name in ("pl", "tsql"):
+                report.replayed += 1
+                cid = cutplace.Cid()
+                cid.read("cid", [["D", "Format", "delimited"], ["F", "wide_id", "", "", "", "Integer", rule]])
+                statement = sql.SqlFactory(cid, "some_table", sql.SQL_NAME_TO_DIALECT_MAP[DIALECT[name]]).create_table_statement()
+                columns = parse(statement)
+                if not columns or len(columns) != 1 or not (holds(name, columns[0], lo) and holds(name, columns[0], hi)):
+                    report.violation("c19", {"wide_integer": rule, "dialect": name}, "a column that holds %d digits" % digits, statement,
+                                     "%s DDL for an Integer field with rule %s: column %s cannot store the limits (%d digits)" % (
+                                         DIALECT[name], rule, columns[0] if columns else statement, digits))
+
+
 def replay(behaviour, report=None):
     core.import_repo()
     return _job(behaviour)[0]
@@ -183,6 +204,7 @@ def replay(behaviour, report=None):
 
 def run(tier, report):
     core.import_repo()
+    wide_integers(report)
     result = core.tlc("MCSql", "Sql_ideal.cfg")
     core.require_coverage(result, ["AddColumn"], "Sql")
     report.add_tlc("Sql: 4 dialects x all integer ranges over 75 symbolic limits (+-(2^k+d), k in 7,8,15,16,31,32,63) + field lists", result)
